@@ -1,6 +1,26 @@
-(* Props/C01.v — property theorems only; proofs in Proofs/C01*.v (in progress). *)
+(* Props/C01.v — property theorems only; proofs in Proofs/FrameBase.v, Proofs/C01Stream.v. *)
 From Coq Require Import List NArith.
-From Cedar Require Import Lib.Bytes Lib.Sym Model.Frame.
-Theorem C01_open_seal : forall k n a p, open k n a (seal k n a p) = Some p.
-Proof. exact open_seal. Qed.
-Print Assumptions C01_open_seal.
+From Cedar Require Import Lib.Bytes Lib.Sym gen.Consts Model.Frame Model.FrameSpec Proofs.FrameBase Proofs.C01Stream.
+Import ListNotations.
+Local Open Scope N_scope.
+
+(* Whatever well-formed history h the sender runs (any messages, any chunking into buffered
+   writes or direct partial frames, plaintext or AES-GCM), if every send is accepted then the
+   paired receiver returns exactly those messages, same bytes, same boundaries, no error,
+   nothing left over - through ReceiveCompleteMessage and through the Message-layer reader. *)
+Theorem C01_roundtrip_stream :
+  forall api, api = ApiComplete \/ api = ApiMessage ->
+  forall (h : list msg) (A B A1 : stream) (fs rest : list frame),
+    duplex A B -> send_all A h = (A1, SOk fs) ->
+    exists B1, recv_upto api B (length h) (fs ++ rest) = (B1, map payload_of h, None, rest) /\ duplex A1 B1.
+Proof. exact roundtrip_simple. Qed.
+Print Assumptions C01_roundtrip_stream.
+
+(* A frame the sending side accepts is never rejected by the paired receiver. *)
+Theorem C01_accept_implies_accept :
+  forall (A B : stream) (d : bytes) (fl : N) (A1 : stream) (f : frame),
+    duplex A B -> fl = EndFlagPartial \/ fl = EndFlagComplete ->
+    send_frame A d fl = (A1, SOk f) ->
+    exists B1, recv_frame_we B f = (B1, SOk (d, fl)).
+Proof. exact accept_implies_accept. Qed.
+Print Assumptions C01_accept_implies_accept.
